@@ -57,6 +57,9 @@ type c04Case struct {
 	// JSON2: the updating and the read-only process build their Configs with these JSON options (the project changed
 	// indent / width / key sorting since the snapshots were recorded): the formatted value of JSON calls changes with them
 	JSON2 *JSONCfg `json:"json_options_of_the_update_run,omitempty"`
+	// Leftover: next to the multi-entry file lies `<file>.tmp`, longer than the file (what an interrupted run of some tool left
+	// behind). Whatever happens to that file, the snapshot file holds exactly the entries and nothing else
+	Leftover bool `json:"leftover_tmp_file_next_to_the_snapshot_file,omitempty"`
 	// CRLF: after the recording run the multi-entry file is converted to CRLF line ends (a checkout with core.autocrlf)
 	CRLF bool `json:"file_converted_to_crlf,omitempty"`
 }
@@ -234,6 +237,7 @@ func genC04(t *rapid.T) c04Case {
 	}
 	c.Mode3, c.Upd3 = genReadOnlyMode(t)
 	c.CRLF = rapid.IntRange(0, 4).Draw(t, "crlf") == 0
+	c.Leftover = rapid.IntRange(0, 3).Draw(t, "leftover") == 0
 	if rapid.IntRange(0, 3).Draw(t, "json2") == 0 {
 		c.JSON2 = &JSONCfg{Width: rapid.SampledFrom([]int{80, 20, 200}).Draw(t, "w2"), Indent: rapid.SampledFrom([]string{"  ", "\t", " ", ""}).Draw(t, "i2"), SortKeys: rapid.Bool().Draw(t, "s2")}
 		for ti := range c.Tests {
@@ -287,6 +291,9 @@ func checkC04(c c04Case) error {
 		return fmt.Errorf("file after recording is not well formed: %v", err)
 	}
 
+	if data := readFile(multi); c.Leftover && data != "" {
+		os.WriteFile(multi+".tmp", []byte(data+data+"\n[TestLeftover - 1]\nresidue of an interrupted run "+strings.Repeat("x", 300)+"\n---\n"), 0o644)
+	}
 	crlf := false
 	if data := readFile(multi); c.CRLF && data != "" && !strings.Contains(data, "\r") {
 		os.WriteFile(multi, []byte(strings.ReplaceAll(data, "\n", "\r\n")), 0o644)
@@ -367,6 +374,9 @@ func checkC04(c c04Case) error {
 			}
 			// exactly the addressed file changed
 			for p, b := range before {
+				if strings.HasSuffix(p, ".tmp") {
+					continue // (the leftover is nobody's: not demanded to survive)
+				}
 				a, ok := after[p]
 				if !ok {
 					return fmt.Errorf("update run %s call %d: %q disappeared", tc.Name, k+1, p)
